@@ -26,6 +26,7 @@ Fixpoint filter_map {A B} (phi : A -> option B) (l : list A) : list B :=
 (* ---- the recorded forms ------------------------------------------------------------------------------- *)
 Record decl := { d_vars : list (nat * val); d_comps : list nat; d_keys : list (nat * val) }.
 Definition fm_eqb (a b : nat * mid) : bool := (fst a =? fst b) && mid_eqb (snd a) (snd b).
+(* declarations newest first *)
 Record sstate := { ss_decls : list (nat * decl); ss_slots : list ((nat * mid) * combo) }.
 Definition s_init : sstate := {| ss_decls := []; ss_slots := [((vanilla, MUser 0), vanilla_combo)] |}.
 
@@ -70,7 +71,7 @@ Definition s_acc (a : accs) (ds : list (nat * decl)) (f : nat) : list nat :=
 Definition sstep (ss : sstate) (x : form) : sstate :=
   match x with
   | DFlavor f vars comps keys gets sets =>
-      let ds := ss_decls ss ++ [(f, {| d_vars := set_all Nat.eqb [] vars; d_comps := comps; d_keys := set_all Nat.eqb [] keys |})] in
+      let ds := (f, {| d_vars := set_all Nat.eqb [] vars; d_comps := comps; d_keys := set_all Nat.eqb [] keys |}) :: ss_decls ss in
       let ss1 := {| ss_decls := ds; ss_slots := ss_slots ss |} in
       let ss2 := fold_left (fun s x => s_set_slot s f (MGet x) DPrimary (BGetter x)) (s_acc gets ds f) ss1 in
       fold_left (fun s x => s_set_slot s f (MSet x) DPrimary (BSetter x)) (s_acc sets ds f) ss2
